@@ -20,10 +20,20 @@ def two_hot_cases(chk, rng, n):
     import jax.numpy as jnp
     from rl_blox.blox import preprocessing as pp
     exprs, recs = [], []
-    real_bins = np.asarray(pp.make_two_hot_bins(-3.0, 3.0, 13), dtype=np.float32)
+    # the library's own bins for symmetric, one-sided and asymmetric exponent ranges (strictly increasing edges are part of the contract)
+    ranges = [(-3.0, 3.0, 13), (0.0, 5.0, 9), (-1.0, 6.0, 12), (-6.0, 2.0, 11), (-10.0, 10.0, 101), (-2.0, 2.0, 2)]
+    real = [np.asarray(pp.make_two_hot_bins(lo, hi, nb), dtype=np.float32) for lo, hi, nb in ranges]
+    for (lo, hi, nb), rb in zip(ranges, real):
+        chk.case(("bins", lo, hi, nb))
+        chk.count("make_two_hot_bins_cases")
+        if len(rb) != nb or not np.all(np.diff(rb.astype(np.float64)) > 0):
+            chk.fail("C18:make_two_hot_bins:increasing", "the bin edges are not strictly increasing", {"lower_exponent": lo, "upper_exponent": hi, "n_bin_edges": nb,
+                                                                                                  "bins": rb.tolist()})
+        exprs.append(f"(sl sf (M.make_two_hot_bins float_ops {flit(lo)} {flit(hi)} {nlit(nb)}))")
+        recs.append(("bins", (lo, hi, nb), rb))
     for i in range(n):
         if i % 3 == 0:
-            bins = real_bins
+            bins = real[(i // 3) % len(real)]
         else:
             m = int(rng.integers(2, 9))
             gaps = rng.choice([0.25, 0.5, 1.0, 2.0, 0.75], size=m - 1)
@@ -53,6 +63,12 @@ def two_hot_cases(chk, rng, n):
             f'sl sf (List.map2 (fun lg x -> M.two_hot_ce_row float_ops bins lg x) {llit(logits, fll)} xs) ^ "]")')
         recs.append((bins, xs, enc, dec, logits, ce))
     res = chk.model_eval(exprs, per_file=40)
+    nb_ = len(ranges)
+    for (_, rng_, rb), mb in zip(recs[:nb_], res[:nb_]):
+        mb = np.array([parse_f(v) for v in mb])
+        if len(mb) != len(rb) or not np.allclose(rb, mb, rtol=2e-6, atol=2e-6 * max(1.0, float(np.abs(mb).max()))):
+            chk.disagree("make_two_hot_bins", {"lower, upper, n": list(rng_), "impl": rb.tolist(), "model": mb.tolist()})
+    recs, res = recs[nb_:], res[nb_:]
     for (bins, xs, enc, dec, logits, ce), (menc, mdec, mce) in zip(recs, res):
         chk.case(("two_hot", tuple(bins.tolist()), tuple(xs.tolist())), nontrivial=True)
         chk.count("two_hot_values", len(xs))
@@ -225,7 +241,7 @@ def main(chk):
     masked_cases(chk, rng, 80 if q else 3000)
     norm_cases(chk, rng, 50 if q else 2000)
     schedule_cases(chk, rng, 120 if q else 4000)
-    chk.sample({"kind": "two-hot", "note": "bins: the real make_two_hot_bins(-3,3,13) output and random dyadic bins; x on every kind of position (edge, first, last, zero, interior)"})
+    chk.sample({"kind": "two-hot", "note": "bins: the library's make_two_hot_bins for symmetric / one-sided / asymmetric exponent ranges (vs the model, strictly increasing) and random dyadic bins; x on every kind of position (edge, first, last, zero, interior)"})
     return chk.finish(
         rule="two-hot encode/decode/cross-entropy on real symexp bins and dyadic bins with values exactly on edges, at both range ends, "
              "at zero and inside (float32 vs float64 model, atol 2e-6); Huber at |e| = delta and delta +- 2^-10 (exact rational "
